@@ -212,11 +212,12 @@ BKG0(k) == BReb(k) \o BSize(k) \o PKG0("p1", TRUE) \o PKG0("p2", TRUE)
 BKM(k)  == BReb(k) \o BSize(k) \o PKM("p1", TRUE) \o PKM("p2", TRUE)
            \o (IF Is1D(k) THEN SKM(k) ELSE <<>>) \o <<StR("", "model")>>
            \o (IF Is1D(k) THEN <<>> ELSE SKM(k)) \o <<StW("", "kM")>>                   \* calc_kM :756-813
-BKA(k)  == BReb(k) \o StWs("p1", <<"flow", "Mach", "rho_air", "speed_sound">>) \o <<StR("", "size")>>
-           \o <<StW("p1", "size"), StW("p1", "V"), StX("p1", "r")>>                         \* calc_kA :817-859  p.size = self.size; p.r = self.r
-           \o (IF k = "BayBeta" THEN <<StR("p1", "model")>> \o PGetSize("p1") \o <<StL("p1", "r"), StB("beta")>>   \* panel.beta is not forwarded
-               ELSE PKA("p1")) \o <<StW("", "kA")>>
-BCA(k)  == BReb(k) \o BSize(k) \o <<StB("signature")>>                                  \* calc_cA :879-905
+BKA(k)  == BReb(k) \o StWs("p1", <<"flow", "Mach", "rho_air", "speed_sound">>) \o BSize(k)
+           \o <<StW("p1", "size"), StW("p1", "V"), StX("p1", "r")>>                  \* calc_kA :817-863  p.size = self.get_size(); p.r = self.r
+           \o StWs("p1", <<"beta", "gamma", "aeromu">>) \o PKA("p1") \o <<StW("", "kA")>>
+BCA(k)  == BReb(k) \o BSize(k)                                                       \* calc_cA :882-922
+           \o (IF k = "BayBeta" THEN <<StD("p1", "size")>> \o PCA("p1") \o <<StW("", "cA")>>
+               ELSE <<StB("r_none")>>)                  \* Mach given on a flat bay: gamma = beta/(2.*self.r*...) with r None
 BFext(k) == <<StR("", "model")>>                                                        \* calc_fext :1575-1633 (no _rebuild)
             \o (CASE k = "BayB2" -> <<StR("flange", "model")>> \o PGetSize("flange")
                   [] k = "BayT2" -> PGetSize("base") \o <<StR("base", "model")>> \o PGetSize("flange")
@@ -237,7 +238,7 @@ BayScript(k, m) ==
       [] m = "an_lb"     -> BK0(k) \o BKG0(k)       \* compmech.analysis.lb(bay.calc_k0(), bay.calc_kG0())
       [] m = "an_freq"   -> BK0(k) \o BKM(k)
       [] m = "an_static" -> BK0(k) \o BFext(k)
-BayMethods(k) == IF k = "BayBeta" THEN {"calc_k0", "calc_kM", "calc_kA"}
+BayMethods(k) == IF k = "BayBeta" THEN {"calc_k0", "calc_kM", "calc_kA", "calc_cA"}
                  ELSE {"calc_k0", "calc_kG0", "calc_kM", "calc_kA", "calc_cA", "calc_fext", "uvw_skin",
                        "an_lb", "an_freq", "an_static"}
                       \cup (IF k \in {"BayB2", "BayT2"} THEN {"uvw_stiffener"} ELSE {})
@@ -409,9 +410,7 @@ FailTable == {
   KFail("KF_C20_Panel_calc_fint_model", "Assembly", "calc_fint", "F", "ValueError", "Invalid shape for Finput!"),
   KFail("KF_C20_Assembly_calc_fint_sum", "Assembly", "calc_fint", "sum", "TypeError", "unsupported operand type(s) for +=: 'int"),
   KFail("KF_C20_Bay_calc_kA_r", "Bay", "*", "r_mismatch", "AssertionError", ""),
-  KFail("KF_C20_Bay_calc_kA_size", "Bay", "calc_kA", "size", "AttributeError", "'StiffPanelBay' object has no attribute "),
-  KFail("KF_C20_Bay_calc_kA_beta", "Bay", "calc_kA", "beta", "ValueError", "Mach number cannot be a NoneValue"),
-  KFail("KF_C20_Bay_calc_cA_signature", "Bay", "calc_cA", "signature", "TypeError", "unsupported operand type(s) for *: 'floa"),
+  KFail("KF_C20_Bay_calc_cA_r", "Bay", "calc_cA", "r_none", "TypeError", "unsupported operand type(s) for *: 'floa"),
   KFail("KF_C20_Bay_calc_fext_model", "Bay", "calc_fext", "model", "KeyError", KeyNone),
   KFail("KF_C20_Bay_uvw_model", "Bay", "uvw_skin", "model", "KeyError", KeyNone),
   KFail("KF_C20_Bay_uvw_model", "Bay", "uvw_stiffener", "model", "KeyError", KeyNone),
